@@ -99,22 +99,22 @@ Print Assumptions C17_fanout.
 (* ---- paths -------------------------------------------------------------- *)
 
 (* every returned path is a non-empty net path src -> dst (memory write nets
-   followed by a read port of the same memory); it repeats no net unless it
-   goes through a memory write *)
+   followed by a read port of the same memory) that repeats no net -- all netlists *)
 Theorem C17_paths_sound : forall nl src dst p,
-  In p (paths nl src dst) ->
-  p <> [] /\ chain nl src p dst /\ ((forall n, In n p -> has_dest n = true) -> NoDup p).
+  In p (paths nl src dst) -> p <> [] /\ chain nl src p dst /\ NoDup p.
 Proof. exact paths_sound. Qed.
 Print Assumptions C17_paths_sound.
 
-(* away from memory writes and with one driver per wire (Block.sanity_check),
-   every returned path is a SIMPLE path: no net twice, no wire twice, and for
-   src <> dst it never comes back to src -- the suffix filter removes all of those *)
+(* SOUNDNESS, full statement: with one driver per wire (Block.sanity_check /
+   net_connections; evaluated on every dumped design by `single_driverb`), every
+   returned path is a SIMPLE path: no net twice, no wire twice, and for src <> dst it
+   never comes back to src -- the filter removes all of those.  Memories included.
+   (wfb alone does not imply the single-driver hypothesis: it does not constrain
+   the destinations of register nets.) *)
 Theorem C17_paths_sound_simple : forall nl src dst p,
   (forall n1 n2, In n1 (nets nl) -> In n2 (nets nl) -> has_dest n1 = true -> has_dest n2 = true ->
                  ndest n1 = ndest n2 -> n1 = n2) ->
-  In p (paths nl src dst) -> (forall n, In n p -> has_dest n = true) ->
-  simple_path nl src p dst.
+  In p (paths nl src dst) -> simple_path nl src p dst.
 Proof. exact paths_sound_simple. Qed.
 Print Assumptions C17_paths_sound_simple.
 
@@ -135,25 +135,22 @@ Theorem C17_paths_reconvergence_witness :
 Proof. exact (conj f18_simple f18_now_complete). Qed.
 Print Assumptions C17_paths_reconvergence_witness.
 
-(* exactness away from memory writes: returned set = set of simple paths *)
+(* EXACTNESS: paths(src, dst) returns exactly the set of simple net paths *)
 Theorem C17_paths_exact : forall nl src dst p,
   (forall n1 n2, In n1 (nets nl) -> In n2 (nets nl) -> has_dest n1 = true -> has_dest n2 = true ->
                  ndest n1 = ndest n2 -> n1 = n2) ->
-  (forall n, In n (nets nl) -> has_dest n = true) ->
   (In p (paths nl src dst) <-> simple_path nl src p dst).
 Proof. exact paths_exact. Qed.
 Print Assumptions C17_paths_exact.
 
-(* SOUNDNESS, full statement -- false of the code as it is (next theorem) *)
-Definition C17_paths_sound_full_statement : Prop := forall nl src dst p,
-  wfb nl = true -> In p (paths nl src dst) -> simple_path nl src p dst.
-
-(* the read port appended after a memory write is not tested against the current
-   path: a returned path can contain the same read net twice *)
-Theorem C17_paths_memloop_refuted :
-  exists nl src dst p, wfb nl = true /\ In p (paths nl src dst) /\ ~ NoDup p.
-Proof. exact paths_memloop_refuted. Qed.
-Print Assumptions C17_paths_memloop_refuted.
+(* the former read-port witness (i -> addr; rd = m[addr]; m[wa] <<= rd ^ 1; o <<= ~rd):
+   before the fix paths(i, o) also returned a path containing the read net twice;
+   now exactly the one simple path is returned *)
+Theorem C17_paths_memloop_witness :
+  paths memloop_nl 1 8 = [ [ mkNet OpW [1] 3; mkNet (OpMemRd 0) [3] 4; mkNet OpNot [4] 7; mkNet OpW [7] 8 ] ]
+  /\ ~ In memloop_path (paths memloop_nl 1 8) /\ ~ NoDup memloop_path /\ wfb memloop_nl = true.
+Proof. exact memloop_now_sound. Qed.
+Print Assumptions C17_paths_memloop_witness.
 
 (* (kept from before the F18 fix) completeness under the guard that excluded F18:
    no net of the path other than its first one reads src *)
